@@ -221,6 +221,34 @@ theorem distributeSurplusOn_booked (ops : BatOps α B) (law : BatLaw ops) (env :
       obtain ⟨w1, c1⟩ := st'
       exact surplusVehicle_booked ops law env cheap st.1 w1 st.2 c1 v hi hs
 
+/-! ### the repair DIST2 (`syncStations`) -/
+
+/-- after DIST2 every station of the virtual world carries exactly what is booked for it at the connector — whatever
+the sub-strategy did (also a sub-strategy that never writes `cs.current_power`) -/
+theorem syncStations_booked (vw : SWorld α B) (g : GcS α) (hg : vw.gcs = [g]) :
+    ∀ s ∈ (syncStations vw).stations, (sdGet g.loads s.id).getD 0 = s.currentPower := by
+  intro s hs
+  unfold syncStations at hs
+  simp only [hg, List.mem_map] at hs
+  obtain ⟨x, _, rfl⟩ := hs
+  rfl
+
+/-- on a booked one-connector world whose stations all belong to that connector DIST2 changes nothing -/
+theorem syncStations_noop (vw : SWorld α B) (g : GcS α) (hg : vw.gcs = [g]) (hb : Booked vw)
+    (hp : ∀ s ∈ vw.stations, s.parent = g.id) : syncStations vw = vw := by
+  have : vw.stations.map (fun s => { s with currentPower := (sdGet g.loads s.id).getD 0 }) = vw.stations := by
+    conv_rhs => rw [← List.map_id vw.stations]
+    apply List.map_congr_left
+    intro s hs
+    have := hb s hs g (by rw [hg]; simp) (hp s hs).symm
+    simp only [id]
+    rw [this]
+  unfold syncStations
+  simp only [hg, this]
+  cases vw
+  simp only at hg
+  simp [hg]
+
 /-! ### lower side of the station bound: `−(maximum + eps) < power` -/
 
 def Lower (E : α) (w : SWorld α B) : Prop := ∀ s ∈ w.stations, -(s.maxPower + E) < s.currentPower
